@@ -1126,6 +1126,11 @@ class FnEmitter:
         if inlined is not None:
             return inlined
         arg_cts = [self.ct(a) for a in args if a.get('kind') != 'CXXDefaultArgExpr']
+        fsn = self.cfg.get('full_sig_names')
+        if fsn and re.search(fsn, self.idx.qname.get(rid) or ''):
+            # callee named after its FULL parameter list (defaulted ones included), so that spelling a default out
+            # or leaving it to the default argument is the same C function
+            arg_cts = [self.ct(a) for a in args]
         so = self.strip(obj)
         if so.get('kind') == 'CXXOperatorCallExpr' and self.ct(obj).endswith(' *') and \
                 self.ty.is_oomd_struct(self.ct(obj)[:-2]):
@@ -2770,6 +2775,24 @@ class Unit:
             for text, nm in self.strlits.items():
                 out.append('#define %s ((str_t)(%d)) /* %s */' % (
                     nm, 1000000 + (zlib.crc32(text.encode()) & 0xffffff), json.dumps(text)))
+        # string constants the unit's contracts name but the extracted code (no longer) contains: distinct interned
+        # values, so that a renamed literal fails the contract that names the documented one instead of breaking the build
+        try:
+            cdir0 = os.path.dirname(os.path.abspath(self.cfg['_cfg_path']))
+            stext = open(os.path.join(cdir0, self.cfg['spec'])).read()
+            for inc in self.cfg.get('spec_includes', []):
+                try:
+                    stext += open(os.path.join(cdir0, inc)).read()
+                except OSError:
+                    pass
+            import zlib as _z
+            known = set(self.strlits.values())
+            defined_in_spec = set(re.findall(r'^#define\s+(STR_\w+)', stext, re.M))
+            for nm in sorted(set(re.findall(r'\bSTR_\w+\b', stext)) - known - defined_in_spec - {'STR_EMPTY'}):
+                out.append('#define %s ((str_t)(%d)) /* named by the contracts only: no such literal in the extracted code */' % (
+                    nm, 20000000 + (_z.crc32(nm.encode()) & 0xffffff)))
+        except OSError:
+            pass
         if self.exc_kinds:
             pass
         if self.static_locals:
